@@ -60,13 +60,20 @@ def pairwiseB (r : α → α → Bool) : List α → Bool
   | [] => true
   | a :: l => l.all (r a) && pairwiseB r l
 
+/-- two tab-separated field strings hold the same fields, each as often, in any order -/
+def sameFields (x y : String) : Bool :=
+  let fx := x.splitOn "\t"
+  let fy := y.splitOn "\t"
+  fx.length == fy.length && fx.all (fun f => (fx.filter (· == f)).length == (fy.filter (· == f)).length)
+
 /-- C08+C09 on a whole file: `impl` is the output as (ordinal of the input record, appended suffix) in output order -/
 def specFile (specs : List (Option Aln)) (impl : List (Int × String)) : Bool :=
   isPermOfRange (impl.map (·.1)) specs.length &&
   (let alns := impl.filterMap (fun (o, _) => (specs[o.toNat]?).join)
    alns.length == impl.length &&
    pairwiseB keyLeB alns &&
-   (List.zip alns impl).all (fun (a, (_, sfx)) => sfx == suffix a))
+   -- exactly the three fields bo:i / sn:Z / iv:i of that record were appended (their mutual order is not constrained)
+   (List.zip alns impl).all (fun (a, (_, sfx)) => sameFields sfx (suffix a)))
 
 /-- C10: `g` lists exactly the contigs ≠ "unknown" of the output with the first and last output position -/
 def specGsi (sns : List String) (g : List (String × Nat × Nat)) : Bool :=
